@@ -539,6 +539,13 @@ func genWalkEnum(r *Rng) []*Scenario {
 		ws := *base
 		ws.Tape = strings.Repeat("1", p) + "0"
 		out = append(out, &Scenario{Property: "C18", Phase: "single-enum", Doc: doc, Walk: &ws})
+		if p%3 == 0 || tierThorough {
+			// the callback at position p leaves Walk by panicking
+			wp := *base
+			wp.Tape = strings.Repeat("1", p) + "P"
+			wp.Reentrant = false
+			out = append(out, &Scenario{Property: "C18", Phase: "single-enum", Doc: doc, Walk: &wp})
+		}
 	}
 	return out
 }
